@@ -2,7 +2,9 @@ mod checks;
 mod clock;
 mod core;
 mod e1;
+mod e2;
 mod report;
+use vx_sizes as sizes;
 
 use report::Tier;
 
@@ -86,6 +88,30 @@ fn replay_file(path: &str) -> Result<i32, String> {
                 Ok(1)
             } else {
                 println!("not reproduced");
+                Ok(0)
+            }
+        }
+        "e2" => {
+            let n = v["slots"].as_u64().unwrap_or(1) as usize;
+            let k = v["max_handles"].as_u64().unwrap_or(2) as usize;
+            let hist: Vec<e2::Op> = v["history"]
+                .as_array()
+                .ok_or("no history")?
+                .iter()
+                .filter_map(|x| x.as_str().and_then(e2::parse_op))
+                .collect();
+            let viol = e2::replay_history(n, k, &hist);
+            let want = v["signature"].as_str().unwrap_or("");
+            for (s, m) in &viol {
+                println!("violation: [{}] {}", s, m);
+            }
+            if v["check"].as_str() == Some("C05") {
+                println!("(C05 input {:?}: re-run `./check C05` to re-evaluate the input alphabet on this state)", v["input"]);
+            }
+            if viol.iter().any(|x| x.0 == want) {
+                println!("REPRODUCED {}", want);
+                Ok(1)
+            } else {
                 Ok(0)
             }
         }
